@@ -1,22 +1,24 @@
 """C06 Clause selection: constant keys of first-argument indexing (engine M)."""
 from vlib import mprop
-from vlib.mirsmt import c06
+from vlib.mirsmt import c06, idxorder
 
 ENCODED = ["every function that looks a cell up in a SwitchOnConstant table (execute_switch_on_term, next_clause_applicable) and MachineState::switch_on_constant_key",
            "CodeOffsets::index_constant (keys entered per clause constant)",
            "indexing::constant_key_alternatives",
            "MachineState::select_switch_on_term_index (first-level routing table, 10 cell kinds)",
            "CodeOffsets::compute_indices (layout: final con/str/lst pointers = emitted index + number of "
-           "switch lines emitted after them; the emitters' flags are free 0/1 inputs)"]
+           "switch lines emitted after them; the emitters' flags are free 0/1 inputs)",
+           "every function of indexing.rs that branches on append_or_prepend.is_append() (7: "
+           "search_skeleton_for_first_key_type, add_{static,dynamic}_indexed_choice_for_{constant,structure}, "
+           "extend_indexed_choice, index_list): append <=> the new clause goes last, prepend <=> first"]
 ASSUME = ["cell model: kind in {fixnum, bignum cell, rational cell}, denoted integer, arena "
           "pointer; HeapCellValue's derived Eq = raw bits (arena cells equal iff same pointer)",
           "the facts instantiating the model are re-extracted from the MIR of the current tree "
           "on every run"]
 BOUNDS = "all integers (unbounded Int in the model), all pairs of cells denoting the same value"
 OUTSIDE = ("the emitters themselves (Indexer::switch_on / switch_on_list), incremental maintenance of the "
-           "tables (merge_clause_index, remove_index: IndexMap + VecDeque surgery), clause order inside a "
-           "bucket, floats (F64Table de-duplicates), second-level atom/structure keys")
+           "tables beyond the order decisions (merge_clause_index, remove_index: IndexMap + VecDeque surgery), floats (F64Table de-duplicates), second-level atom/structure keys")
 
 
 def run(tier):
-    return mprop.run("C06", tier, [("keys", c06.run)], ASSUME, ENCODED, BOUNDS, OUTSIDE)
+    return mprop.run("C06", tier, [("keys", c06.run), ("order", lambda thorough=False: idxorder.run(thorough, prop="C06"))], ASSUME, ENCODED, BOUNDS, OUTSIDE)
